@@ -4,3 +4,4 @@ import NbdimeModel.Patch
 import NbdimeModel.Lcs
 import NbdimeModel.Diff
 import NbdimeModel.WF
+import NbdimeModel.History
